@@ -2186,13 +2186,17 @@ class tensor:
                 idx = [slice(None, currentShape) for currentShape in self.shape]
                 idx.extend([0] * (len(newsiz) - self.ndims))
                 newData[tuple(idx)] = self.data
-            self.data = newData
-
-            self.shape = tuple(newsiz)
-        if isinstance(value, ttb.tensor):
-            self.data[key] = value.data
         else:
-            self.data[key] = value
+            newData = self.data
+        # Assign first and commit the enlarged buffer only when the right-hand side
+        # has been accepted: a rejected request leaves the tensor as it was
+        if isinstance(value, ttb.tensor):
+            newData[key] = value.data
+        else:
+            newData[key] = value
+        if newData is not self.data:
+            self.data = newData
+            self.shape = tuple(newsiz)
 
     def _set_subscripts(self, key, value):
         # Extract array of subscripts
@@ -2218,12 +2222,15 @@ class tensor:
                 idx = [slice(None, currentShape) for currentShape in self.shape]
                 idx.extend([0] * (len(newsiz) - self.ndims))
                 newData[tuple(idx)] = self.data
+        else:
+            newData = self.data
+
+        # Finally we can copy in new data (and only then commit the enlarged buffer:
+        # a rejected request leaves the tensor as it was)
+        newData[tuple(key.transpose())] = value
+        if newData is not self.data:
             self.data = newData
-
             self.shape = tuple(newsiz)
-
-        # Finally we can copy in new data
-        self.data[tuple(key.transpose())] = value
 
     def __getitem__(self, item):  # noqa: PLR0912
         """
